@@ -80,8 +80,13 @@ impl TimeZone {
     }
 
     pub(crate) fn to_local_time_type(&self, timestamp: i64) -> LocalTimeType {
-        match self.transitions[..] {
-            [] => match &self.extra_rule {
+        // The footer describes all times after the last transition (RFC 8536 section 3.3)
+        let after_last_transition = match self.transitions.last() {
+            Some(last) => last.unix_leap_time < timestamp && self.extra_rule.is_some(),
+            None => true,
+        };
+        match after_last_transition {
+            true => match &self.extra_rule {
                 Some(rule) => match rule {
                     TransitionRule::Fixed(local_time_type) => local_time_type.clone(),
                     TransitionRule::Alternate(altt) => {
@@ -119,7 +124,7 @@ impl TimeZone {
                 },
                 None => self.local_time_types[0].clone(),
             },
-            _ => {
+            false => {
                 let mut local_time_type_index = 0;
                 for transition in self.transitions.iter().rev() {
                     if transition.unix_leap_time <= timestamp {
